@@ -63,6 +63,8 @@ def dump (d : D) : String :=
   "P=" ++ iterStr st .prop ++ " V=" ++ iterStr st .val ++ " G=" ++ ",".intercalate g ++ " A=" ++ ",".intercalate a
     ++ " T=" ++ totalsStr st st.height ++ " T=" ++ totalsStr st (st.height + heightAfterStake)
     ++ " B=" ++ ",".intercalate b ++ " E=" ++ ",".intercalate e ++ " R=" ++ ",".intercalate r
+    ++ " S=" ++ (let vs := validatorsStake realCfg st d.ids
+                 toString vs.1 ++ "/" ++ ",".intercalate (sortStrs (vs.2.map (fun e => toHex e.1 ++ ":" ++ toString e.2))))
     ++ " K=" ++ ",".intercalate (d.ids.map (fun id => match st.pkOf id with | none => "nil" | some k => toHex k))
 
 def readerStr (d : D) : String :=
@@ -178,6 +180,9 @@ def stepOpt (d : D) (ws : List String) : Option (D × String) :=
       let src ← ofHex? src
       let r := runNode realCfg d.st src (create2Of d.st src)
       pure ({ d with st := r.2 }, r.1)
+    | ["purge", w] => do
+      let w ← csv? w
+      pure ({ d with st := removeUnusedValidator realCfg d.st w }, "ok")
     | ["rewind"] =>
       -- the block being executed is discarded: the account state falls back to the last block end; the public-key
       -- cache is not part of it and keeps what the discarded block put there
